@@ -30,7 +30,7 @@ objsim.PROFILES.update(
         "hybrid": dict(w=dict(_W)),
         "hybrid_moves": dict(w=dict(_W, h_move=18, h_copy=14)),
         "hybrid_dict": dict(w=dict(_W, h_dict=24, h_move=3)),
-        "hybrid_restart": dict(w=dict(_W, h_restart=16, h_move=3)),
+        "hybrid_restart": dict(w=dict(_W, h_restart=16, h_move=3), force_p=dict(cold_restart=0.15)),
     }
 )
 for k_ in ("h_construct", "h_set", "h_copy", "h_move"):
@@ -673,7 +673,11 @@ class HGenSource(GenSource):
             return None
         k = self.rng.choice([1, 1, 2, 3])
         objs = self.rng.sample(live, min(k, len(live)))
-        return {"op": "h_restart", "objs": [o.k for o in objs], "id": self.new_id(len(objs))}
+        op = {"op": "h_restart", "objs": [o.k for o in objs], "id": self.new_id(len(objs))}
+        if self.sw.get("cold_restart") and not self.cold_done and self.rng.random() < 0.5:
+            op["cold"] = True  # the same pickle is also loaded in a fresh interpreter (sim/coldload.py)
+            self.cold_done = True
+        return op
 
 
 class HStep(Step):
@@ -1271,7 +1275,8 @@ class HStep(Step):
             b._ctl.armed = False
         try:
             try:
-                new = pickle.loads(pickle.dumps([o.dressed for o in objs]))
+                data = pickle.dumps([o.dressed for o in objs])
+                new = pickle.loads(data)
             except Exception as e:
                 self.outcome = "raised:" + exc_sig(e)
                 self.viol("C20", "pickle_raised", ["h_restart", exc_sig(e)], f"{type(e).__name__}: {e}")
@@ -1282,6 +1287,12 @@ class HStep(Step):
         from .objrestart import clone_graph
 
         res.fault("restart")
+        if op.get("cold"):
+            from .objrestart import _cold
+
+            _cold(self, objs, data, "hybrid")
+            if self.viols:
+                return
         for i in range(len(objs)):
             for j in range(i + 1, len(objs)):
                 was = objs[i].buf is objs[j].buf
